@@ -18,6 +18,26 @@ FRAMED = ["Package", "PackageBuilder", "VarPackage", "BufferData", "BufferTerm",
           "Method", "PowerResource", "Field", "If", "Else", "While"]
 
 
+# characters with a treacherous relation to ASCII under the standard library's string functions: case mappings that
+# land in (or expand to) ASCII letters, non-ASCII digits / upper-case letters (is_numeric, is_alphabetic, is_uppercase),
+# white space that trim() removes, zero-width characters, signs and radix prefixes that integer parsers accept
+HOSTILE = ["\u0131", "\u017f", "\u212a", "\u00df", "\ufb00", "\ufb01", "\ufb02", "\ufb03", "\ufb05", "\ufb06", "\u0130", "\uff21",
+           "\uff10", "\u0660", "\u00b2", "\u2160", "\u0391", "\u0410", "\u00c0", "\u01c5", "\u1e9e", "\u0149", " ", "\t", "\n", "\r", "\u00a0", "\u3000", "\u200b",
+           "\ufeff", "+", "-", "_", "\0", "x", "a", "z", ".", "\\", "^", "/", "0x", "1_"]
+
+
+def hostile_variants(base, positions=None):
+    """base with a hostile character replacing 1, 2 or 3 characters at a position, or inserted there (every position)"""
+    out = []
+    for pos in (positions if positions is not None else range(len(base) + 1)):
+        for h in HOSTILE:
+            out.append(base[:pos] + h + base[pos:])
+            for k in (1, 2, 3):
+                if pos + k <= len(base):
+                    out.append(base[:pos] + h + base[pos + k:])
+    return out
+
+
 def chars(s):
     return list(s.encode("utf-8"))
 
@@ -316,6 +336,62 @@ def all_pairs(rng):
                         p[field] = c
                 out.append(prog(g, p, tag=parent + "." + field + "<-" + childk))
     return out
+
+
+def size_leaves(g):
+    """one leaf per encoded-size class of every leaf kind: the same kind of child may occupy 1, 2, 3, 5 or 9 bytes, and
+    a parent that computes its length instead of measuring it must get every class right"""
+    out = [{"t": "Zero"}, {"t": "One"}, {"t": "Ones"}]
+    for ty, w in (("u8", 1), ("u16", 2), ("u32", 4), ("u64", 8), ("usize", 8)):
+        for v in (0, 1, 0x42, 0xFF, 0x100, 0xFFFF, 0x10000, 0xFFFFFFFF, 0x100000000, (1 << 64) - 1):
+            if v < (1 << (8 * w)):
+                out.append({"t": "Int", "ty": ty, "v": vlib.le(v, w)})
+    # EISA ids are integers: a product number 0000 leaves a word
+    out += [{"t": "Eisa", "s": chars(x)} for x in ("PNP0000", "ACP0000", "PNP0A08", "PNP0001", "ZZZFFFF", "@@@0000", "AAA0100")]
+    out += [{"t": "Str", "s": chars(x), "owned": o} for x in ("", "A", "\u00e9") for o in (False, True)]
+    out += [{"t": "Path", "s": chars(x)} for x in ("ABCD", "\\ABCD", "AB__.CD__", "\\AB__.CD__", "A___.B___.C___", "\\A___.B___.C___")]
+    out += [{"t": "BufferData", "d": [7] * n} for n in (0, 1, 2, 54, 55, 56, 57, 58, 59, 60, 61, 62, 63, 64, 255, 256)]
+    out += [{"t": "Package", "ch": []}, {"t": "Package", "ch": [{"t": "Zero"}]}, {"t": "ResourceTemplate", "ch": []}]
+    for bits in (1, 62, 63, 64, 4093, 4094, 4095, 4096, (1 << 20) - 4, (1 << 20) - 3, (1 << 20) - 2, (1 << 20) - 1, 1 << 20):
+        out.append({"t": "Field", "path": chars("FLD_"), "access": "Any", "lock": "NoLock", "update": "Preserve",
+                    "fields": [{"k": "named", "name": chars("F___"), "bits": bits}]})
+        out.append({"t": "Field", "path": chars("FLD_"), "access": "Any", "lock": "NoLock", "update": "Preserve",
+                    "fields": [{"k": "reserved", "bits": bits}, {"k": "named", "name": chars("G___"), "bits": 8}]})
+    return out
+
+
+def all_leaf_sizes(rng):
+    """every size class of every leaf kind in every child position of every constructor"""
+    out = []
+    for parent in sorted(SLOTS):
+        for (field, is_list) in SLOTS[parent]:
+            g0 = G(rng)
+            for i, leaf in enumerate(size_leaves(g0)):
+                g = G(rng)
+                if parent == "MethodCall":
+                    p = g.make(parent, g.leaf, kids=[g.leaf(), leaf])
+                else:
+                    p = g.make(parent, g.leaf)
+                    if is_list:
+                        lst = list(p[field])
+                        lst.insert(i % (len(lst) + 1), leaf)
+                        p[field] = lst
+                    else:
+                        p[field] = leaf
+                out.append(prog(g, p, tag="%s.%s<-leaf%d" % (parent, field, i)))
+    return out
+
+
+def wrapped(p, i=0):
+    """the same object as the child of a container (its length then sits inside another length)"""
+    outer = [{"t": "Scope", "path": chars("WRAP"), "ch": [p["tree"]]},
+             {"t": "Device", "path": chars("\\_SB_.WRAP"), "ch": [{"t": "Zero"}, p["tree"]]},
+             {"t": "Method", "path": chars("WRAP"), "args": 0, "ser": False, "ch": [p["tree"], {"t": "One"}]},
+             {"t": "If", "p": {"t": "One"}, "ch": [p["tree"]]}][i % 4]
+    q = dict(p, tree=outer)
+    if "tag" in p:
+        q["tag"] = "wrapped/" + p["tag"]
+    return q
 
 
 def sized(rng, kind, n, inner=None):
